@@ -135,7 +135,7 @@ func VerifC04ProofExpiries(c *Cache, zone, owner string) (soa, nsec time.Time) {
 		switch {
 		case id.kind == denialProofSOA:
 			soa = e.expires
-		case id.kind == denialProofNSEC && id.owner == owner:
+		case (id.kind == denialProofNSEC || id.kind == denialProofNSEC3) && id.owner == owner:
 			nsec = e.expires
 		}
 	}
@@ -178,3 +178,6 @@ func VerifC04RunPrefetch(c *Cache, r PrefetchRequest) {
 
 // VerifC04PrefetchPct reads the effective prefetch threshold.
 func VerifC04PrefetchPct(c *Cache) int { return c.config.Prefetch }
+
+// VerifC04ECSMax reads the ECS cap the store works with.
+func VerifC04ECSMax(c *Cache) time.Duration { return c.store.cfg.ECSMaxTTL }
